@@ -336,10 +336,10 @@ def plan(pid, tier):
     P['C12'] = lambda: rc_jobs('h_header', 'c12', 16, 8000 if q else 80000) + ([] if q else fuzz_jobs('fuzz_header', 'C12', 6, 240))
     P['C13'] = lambda: (sweep_jobs('h_args', 'c13_grid', 4) + rc_jobs('h_args', 'c13_grid_rc', 2, 1500 if q else 30000)
                         + sweep_jobs('h_args', 'c13_box', 6 if q else 16) + rc_jobs('h_args', 'c13_box_rc', 4, 3000 if q else 60000))
-    P['C14'] = lambda: (rc_jobs('h_state', 'c14', 8, 400 if q else 6000) + rc_jobs('h_state', 'c14_noq', 4, 400 if q else 6000) + sweep_jobs('h_state', 'c14_exhaustive', 8) + ([] if q else fuzz_jobs('fuzz_api', 'C14', 6, 240)))
-    P['C15'] = lambda: rc_jobs('h_state', 'c15', 12, 2500 if q else 40000) + sweep_jobs('h_state', 'c15_guard_sweep', 4 if q else 12)
+    P['C14'] = lambda: (rc_jobs('h_state', 'c14', 8, 400 if q else 6000) + rc_jobs('h_state', 'c14_noq', 4, 400 if q else 6000) + sweep_jobs('h_sched', 'c14_sched', 4) + sweep_jobs('h_state', 'c14_exhaustive', 8) + ([] if q else fuzz_jobs('fuzz_api', 'C14', 6, 240)))
+    P['C15'] = lambda: rc_jobs('h_state', 'c15', 12, 2500 if q else 40000) + sweep_jobs('h_state', 'c15_guard_sweep', 4 if q else 12) + sweep_jobs('h_codec', 'c15_mt', 3)
     P['C16'] = lambda: (rc_jobs('h_state', 'c16', 12, 1200 if q else 20000) + rc_jobs('h_state', 'c16_noq', 2, 1200 if q else 20000) + sweep_jobs('h_state', 'c16_pairs', 2) + ([] if q else fuzz_jobs('fuzz_api', 'C16', 8, 300)))
-    P['C17'] = lambda: (sweep_jobs('h_fault', 'c17_single', 6) + rc_jobs('h_fault', 'c17', 10, 400 if q else 6000))
+    P['C17'] = lambda: (sweep_jobs('h_fault', 'c17_single', 6) + rc_jobs('h_fault', 'c17', 10, 400 if q else 6000) + sweep_jobs('h_sched', 'c17_sched', 4))
     P['C19'] = lambda: (rc_jobs('h_codec', 'c19', 6, 1500 if q else 30000) + sweep_jobs('h_codec', 'c19_sweep', 6 if q else 12) + rc_jobs('h_codec', 'c19_inv', 3, 800 if q else 10000) + sweep_jobs('h_codec', 'c19_singular', 3 if q else 8)
                         + sweep_jobs('h_needed', 'c06_rs_sweep', 2 if q else 8, extra=['--only_isa', '1']) + sweep_jobs('h_codec', 'c19_mt', 4))
     P['C18'] = lambda: with_timeout(rc_jobs('t_race', 'c18_tsan', 8, 300 if q else 6000, variant='tsan') + sweep_jobs('h_sched', 'c18_sched_exhaustive', 6 if q else 12)
@@ -497,9 +497,11 @@ MODE_HARNESS['c18_tsan'] = ('t_race', 'tsan')
 MODE_HARNESS['c18_sched'] = ('h_sched', 'asan')
 MODE_HARNESS['c18_sched_exhaustive'] = ('h_sched', 'asan')
 MODE_HARNESS['c08_sched'] = ('h_sched', 'asan')
+MODE_HARNESS['c14_sched'] = ('h_sched', 'asan')
+MODE_HARNESS['c17_sched'] = ('h_sched', 'asan')
 for _m in ['c07', 'c07_sweep', 'c08', 'c08_sweep', 'c04_matrix', 'c04_parity', 'c04_parity_mt', 'c04_blocking', 'c05_direct', 'selftest', 'c05_tables', 'c05_encode', 'c05_unsupported']:
     MODE_HARNESS[_m] = ('h_format', 'asan')
-for _m in ['c01_large', 'c02_large', 'c03_large', 'c05_large', 'c05_allocfail', 'c02_allocfail', 'c20_allocfail', 'c05_mt', 'c01_mt', 'c19_mt', 'c19', 'c19_sweep', 'c19_inv', 'c19_singular', 'c05_decode_sweep', 'c01', 'c01_xor_sweep', 'c01_rs_sweep', 'c01_isa_sweep', 'c02', 'c02_subsets', 'c02_band', 'c03', 'c03_xor_sweep', 'c03_rs_sweep', 'c20']:
+for _m in ['c01_large', 'c02_large', 'c03_large', 'c05_large', 'c05_allocfail', 'c02_allocfail', 'c20_allocfail', 'c05_mt', 'c01_mt', 'c19_mt', 'c15_mt', 'c19', 'c19_sweep', 'c19_inv', 'c19_singular', 'c05_decode_sweep', 'c01', 'c01_xor_sweep', 'c01_rs_sweep', 'c01_isa_sweep', 'c02', 'c02_subsets', 'c02_band', 'c03', 'c03_xor_sweep', 'c03_rs_sweep', 'c20']:
     MODE_HARNESS[_m] = ('h_codec', 'asan')
 
 
